@@ -18,8 +18,33 @@ from harness.common import Sym
 REPORT_KEY = 'REPORT_UDIFF'
 
 
+class _AsyncioProxy:
+    """the asyncio module as seen from xdoctest.doctest_example, with run() observed"""
+
+    def __init__(self, real, rec):
+        self._real = real
+        self._rec = rec
+
+    def __getattr__(self, name):
+        return getattr(self._real, name)
+
+    def run(self, coro, *a, **kw):
+        rec = self._rec
+        idx = rec.cur
+        try:
+            r = self._real.run(coro, *a, **kw)
+        except Exception as e:
+            rec.exec_res[idx] = ('raise', e, sys.exc_info()[2])
+            raise
+        except BaseException as e:
+            rec.exec_res[idx] = ('raise' if type(e).__name__ == 'Skipped' else 'base', e, None)
+            raise
+        rec.exec_res[idx] = ('ok', r, None)
+        return r
+
+
 class Recorder:
-    """wraps compile/exec/eval as seen from xdoctest.doctest_example"""
+    """wraps compile/exec/eval (and asyncio.run) as seen from xdoctest.doctest_example"""
 
     def __init__(self, ex):
         self.ex = ex
@@ -70,12 +95,20 @@ class Recorder:
         mod.compile = my_compile
         mod.exec = wrap(real_exec)
         mod.eval = wrap(real_eval)
+        # a part with top-level await: eval() only builds the coroutine, asyncio.run executes it -- what the part
+        # does (value, exception) is the outcome of that call
+        real_asyncio = mod.__dict__.get('asyncio')
+        if real_asyncio is not None and not isinstance(real_asyncio, _AsyncioProxy):
+            mod.asyncio = _AsyncioProxy(real_asyncio, rec)
 
     @staticmethod
     def uninstall(mod):
         for name in ('compile', 'exec', 'eval'):
             if name in mod.__dict__:
                 del mod.__dict__[name]
+        a = mod.__dict__.get('asyncio')
+        if isinstance(a, _AsyncioProxy):
+            mod.asyncio = a._real
 
 
 def part_data(p):
